@@ -187,6 +187,9 @@ func init() {
 			if g.ft.MaxScopes < 2 {
 				g.ft.MaxScopes = 2
 			}
+			if g.ft.Decorators && g.r.Intn(6) == 0 {
+				g.tmpl = (*genCtx).tmplDecorateFirst
+			}
 		}, Mix{Scope: 3, Provide: 10, Decorate: 3, Invoke: 8, VisStr: 0}),
 		Eval:       evalSimple("C01", hasProbe("executed>=3_ok", "arg_cross_scope")),
 		WantProbes: []string{"executed>=3_ok", "arg_cross_scope", "arg_from_decorator", "optional_over_gap", "group_feeders>=3"},
@@ -302,6 +305,9 @@ func init() {
 			g.ft.PAvail = 0.95
 			g.ft.NT = g.r.Range(2, 5)
 			g.ft.NamedSlice = g.r.P(0.3)
+			if g.r.Intn(4) == 0 {
+				g.tmpl = (*genCtx).tmplDecorateFirst
+			}
 		}, Mix{Scope: 3, Provide: 8, Decorate: 7, Invoke: 9, VisStr: 0}),
 		Eval: evalSimple("C12", func(c *Checked) bool {
 			return c.Probes["deco_from_ancestor_scope"] > 0 || c.Probes["deco_nested"] > 0
@@ -359,6 +365,12 @@ func init() {
 		Rule: "history in which a cycle was reported by dig, or a constructor graph one edge short of a cycle was accepted across at least 2 scopes",
 		Gen: genGeneric("C05", func(g *genCtx) {
 			g.ft.FaultRate, g.ft.FaultInv = 0, 0
+			if g.r.Intn(4) == 0 {
+				// "never rejected as cyclic" must also hold for what a failed or
+				// crashed resolution leaves behind (in-progress markers): faults,
+				// recovery on or off, and retries of the same Invoke
+				g.ft.FaultRate, g.ft.PRetry = []float64{0.1, 0.3}[g.r.Intn(2)], 0.5
+			}
 			g.ft.Wild = []float64{0.15, 0.4, 0.8}[g.r.Intn(3)]
 			g.ft.NT = g.r.Range(2, 5)
 			g.ft.Decorators = g.r.P(0.15)
